@@ -336,7 +336,7 @@ End Main.
 Example mkcol_root_reads_parent :
   let r := {| meth := "MKCOL"; rpath := "/"; h_depth := ""; h_overwrite := ""; h_dest := DestAbsent; h_ctype := "";
               h_if_match := ""; h_if_none_match := ""; d_if_match := None; d_if_none_match := None;
-              body := ""; body_fails := false; pf := PfAllProp; stamp := 0; dir_tag := "" |}%string in
+              body := ""; body_fails := false; pf := PfAllProp; stamp := 0; dir_tag := ""; mime_tab := []; sniffed := "" |}%string in
   let sb1 := Some (Dir [("top", Dir [])])%string in
   let sb2 := Some (Dir [("top", File "x" 0)])%string in
   geto sb1 ["top"; "root"]%string = geto sb2 ["top"; "root"]%string /\
